@@ -50,7 +50,9 @@ def fail(env, row, reason):
 
 def write_replay(env, row, prop, header, lines, kind="replay"):
     if kind == "replay":
-        d = os.path.join(env.verif, "replays", env.pid)
+        # VERIF_REPLAY_DIR: used when the engine is pointed at a deliberately mutated copy (teeth tests), so that
+        # those counterexamples do not land among the replays of the real repository
+        d = os.path.join(os.environ.get("VERIF_REPLAY_DIR") or os.path.join(env.verif, "replays"), env.pid)
     else:
         d = env.logdir
     os.makedirs(d, exist_ok=True)
